@@ -303,9 +303,11 @@ def monitor_trace(t, P):
         dfin = P[b]
         probe_tasks = [l[1] for l in t['labels'][a:b] if l[0] == 0 and l[2] == 0]
         res = [dfin['tasks'][pt] for pt in probe_tasks]
-        want_ok = P[a]['max'] if not P[a]['closed'] else 0
-        want_ok = min(want_ok, 6)
-        exp = [100] * want_ok + [101 if not P[a]['closed'] else 106]
+        cap = P[a]['max'] if not P[a]['closed'] else 0
+        want_ok = min(cap, 6)
+        # the harness probes with min(max_size, 6) + 1 non-blocking gets
+        last = 106 if P[a]['closed'] else (101 if cap <= 6 else 100)
+        exp = [100] * want_ok + [last]
         if res != exp:
             msg = 'capacity probe: results %s, expected %s (max_size %d)' % (res, exp, P[a]['max'])
             fail('C02', b, msg)
